@@ -465,6 +465,115 @@ static void set_dfs(const SState &s, const std::vector<SOp> &ops, int depth, int
     }
 }
 
+// ---- pair tables: every pair of environments with <= 3 bindings (every tree
+// shape a binary merge can meet) x every binary operation, pointwise oracle
+static void env_pairs(size_t ks, uint64_t &caseno) {
+  struct E { env_t e; RefEnv r; };
+  std::vector<E> pool;
+  size_t nk = KEYS.size(), nv = 4; // values 0..3 are neither top nor bottom
+  for (unsigned mask = 0; mask < (1u << nk); mask++) {
+    int bits = __builtin_popcount(mask);
+    if (bits > 3) continue;
+    std::vector<size_t> ks_;
+    for (size_t i = 0; i < nk; i++) if (mask & (1u << i)) ks_.push_back(i);
+    size_t combos = 1;
+    for (int i = 0; i < bits; i++) combos *= nv;
+    for (size_t c = 0; c < combos; c++) {
+      E x;
+      size_t cc = c;
+      for (size_t i = 0; i < ks_.size(); i++) {
+        x.e.set(Key(KEYS[ks_[i]]), VALS[cc % nv]);
+        x.r.set(KEYS[ks_[i]], VALS[cc % nv]);
+        cc /= nv;
+      }
+      pool.push_back(x);
+    }
+  }
+  { E b; b.e.set_to_bottom(); b.r.bottom = true; pool.push_back(b); }
+  vp::statmax("env_pair_pool", (long long)pool.size());
+  crab::thresholds<z_number> ts(10);
+  ts.add(bnd_t(z_number(1)));
+  for (size_t i = 0; i < pool.size(); i++) {
+    if (!vp::mine(caseno++)) continue;
+    std::string spec = "envpair:" + std::to_string(ks) + ":" + std::to_string(i);
+    vp::set_case(spec);
+    for (size_t j = 0; j < pool.size(); j++) {
+      const E &a = pool[i], &b = pool[j];
+      struct { const char *name; env_t res; RefEnv ref; } rs[5];
+      auto both_bot = [&](bool meetlike) {
+        RefEnv r;
+        if (meetlike) { if (a.r.bottom || b.r.bottom) { r.bottom = true; return std::make_pair(true, r); } }
+        else { if (a.r.bottom) return std::make_pair(true, b.r); if (b.r.bottom) return std::make_pair(true, a.r); }
+        return std::make_pair(false, r);
+      };
+      try {
+        rs[0] = {"join", a.e | b.e, both_bot(false).first ? both_bot(false).second : pointwise(a.r, b.r, [](const itv_t &x, const itv_t &y) { return x | y; })};
+        rs[1] = {"meet", a.e & b.e, both_bot(true).first ? both_bot(true).second : pointwise(a.r, b.r, [](const itv_t &x, const itv_t &y) { return x & y; })};
+        rs[2] = {"widening", a.e || b.e, both_bot(false).first ? both_bot(false).second : pointwise(a.r, b.r, [](const itv_t &x, const itv_t &y) { return x || y; })};
+        rs[3] = {"narrowing", a.e && b.e, both_bot(true).first ? both_bot(true).second : pointwise(a.r, b.r, [](const itv_t &x, const itv_t &y) { return x && y; })};
+        rs[4] = {"widening_thresholds", a.e.widening_thresholds(b.e, ts), both_bot(false).first ? both_bot(false).second : pointwise(a.r, b.r, [&ts](const itv_t &x, const itv_t &y) { return x.widening_thresholds(y, ts); })};
+        vp::stat("evaluations", 6);
+        vp::stat("transitions", 5);
+        for (auto &r : rs) {
+          bool ok = r.res.is_bottom() == r.ref.bottom;
+          if (ok && !r.ref.bottom) {
+            for (ull k : KEYS) ok = ok && itv_eq(r.res.at(Key(k)), r.ref.at(k));
+            size_t n = 0;
+            for (auto it = r.res.begin(); it != r.res.end(); ++it) n++;
+            ok = ok && n == r.ref.m.size();
+          }
+          if (!ok)
+            vp::viol(std::string("separate_domain.") + r.name + ":not-pointwise", spec + ":" + std::to_string(j),
+                     show_env(a.e) + " " + r.name + " " + show_env(b.e) + " = " + show_env(r.res) + " expected " + show_ref(r.ref));
+        }
+        bool le = a.e <= b.e;
+        if (le != ref_leq(a.r, b.r))
+          vp::viol(std::string("separate_domain.leq:") + (le ? "wrong-yes" : "wrong-no"), spec + ":" + std::to_string(j),
+                   show_env(a.e) + " <= " + show_env(b.e));
+        if (!a.r.bottom && !b.r.bottom && a.r.m.size() >= 2 && b.r.m.size() >= 1) g_nontriv++;
+        g_states++;
+      } catch (crab::verif::crab_error &e) {
+        vp::viol("separate_domain.binary:abort", spec + ":" + std::to_string(j), show_env(a.e) + " , " + show_env(b.e) + " aborts: " + e.what());
+      }
+    }
+  }
+}
+
+static void set_pairs(size_t ks, uint64_t &caseno) {
+  size_t nk = KEYS.size();
+  for (unsigned ma = 0; ma < (1u << nk); ma++) {
+    if (!vp::mine(caseno++)) continue;
+    pset_t a;
+    std::set<ull> ra;
+    for (size_t i = 0; i < nk; i++) if (ma & (1u << i)) { a += Key(KEYS[i]); ra.insert(KEYS[i]); }
+    for (unsigned mb = 0; mb < (1u << nk); mb++) {
+      pset_t b;
+      std::set<ull> rb;
+      for (size_t i = 0; i < nk; i++) if (mb & (1u << i)) { b += Key(KEYS[nk - 1 - i]); rb.insert(KEYS[nk - 1 - i]); }
+      std::string spec = "setpair:" + std::to_string(ks) + ":" + std::to_string(ma) + ":" + std::to_string(mb);
+      vp::set_case(spec);
+      pset_t u = a | b, n = a & b;
+      std::set<ull> ru = ra, rn;
+      ru.insert(rb.begin(), rb.end());
+      for (ull k : ra) if (rb.count(k)) rn.insert(k);
+      vp::stat("evaluations", 4);
+      vp::stat("transitions", 2);
+      g_states++;
+      if (!ra.empty() && !rb.empty()) g_nontriv++;
+      auto same = [](const pset_t &p, const std::set<ull> &r) {
+        std::multiset<ull> it;
+        for (auto i = p.begin(); i != p.end(); ++i) it.insert((*i).i);
+        return it.size() == r.size() && std::equal(it.begin(), it.end(), r.begin()) && p.size() == r.size();
+      };
+      if (!same(u, ru)) vp::viol("patricia_tree_set.union:wrong", spec, show_set(ra) + " | " + show_set(rb));
+      if (!same(n, rn)) vp::viol("patricia_tree_set.intersection:wrong", spec, show_set(ra) + " & " + show_set(rb));
+      bool sub = std::includes(rb.begin(), rb.end(), ra.begin(), ra.end());
+      if ((a <= b) != sub) vp::viol(std::string("patricia_tree_set.subset:") + (sub ? "wrong-no" : "wrong-yes"), spec, show_set(ra) + " <= " + show_set(rb));
+      if ((a == b) != (ra == rb)) vp::viol("patricia_tree_set.==:wrong", spec, show_set(ra) + " == " + show_set(rb));
+    }
+  }
+}
+
 int main(int argc, char **argv) {
   vp::parse_args(argc, argv);
   vp::install_crash_handler();
@@ -490,6 +599,11 @@ int main(int argc, char **argv) {
     if (!rp.empty()) {
       auto f = vp::split(rp, ':');
       if ((size_t)atoi(f[1].c_str()) != ks) continue;
+      if (f[0] == "envpair" || f[0] == "setpair") {
+        uint64_t caseno = ks;
+        if (f[0] == "envpair") env_pairs(ks, caseno); else set_pairs(ks, caseno);
+        continue;
+      }
       std::string h;
       if (f[0] == "env") {
         EState s;
@@ -509,6 +623,11 @@ int main(int argc, char **argv) {
         set_check(s, rp);
       }
       continue;
+    }
+    {
+      uint64_t caseno = ks;
+      env_pairs(ks, caseno);
+      set_pairs(ks, caseno);
     }
     // the first step is the unit of slicing
     {
